@@ -268,6 +268,9 @@ func vScenario(r *vrng, wellBehaved bool, maxSteps int, script []vStep) (steps [
 	observe := func(st *vStep) {
 		tr, ok := h.project()
 		if !ok {
+			if !dead {
+				h.say(fmt.Sprintf("THE SUPERVISOR'S TREE LOCK WAS LEFT HELD after step %d (%s %s %s; the step itself: %s %s): no service can be scheduled, restarted, signalled or stopped any more", len(steps), st.Ev, st.DN, st.Kind, st.Out, st.Msg))
+			}
 			st.Out = "locked-panic"
 			dead = true
 		}
@@ -623,6 +626,15 @@ func vScenario(r *vrng, wellBehaved bool, maxSteps int, script []vStep) (steps [
 				st.Ev = "kill"
 				sup.processKill()
 				killed = true
+				// "cancelling the supervisor's context stops every service": every instance that is still running has been told to stop
+				h.mu.Lock()
+				for _, in := range h.insts {
+					if in.ctx.Err() == nil {
+						h.say(fmt.Sprintf("KILL LEFT A SERVICE RUNNING: the instance of %s is still running after processKill and its context is not cancelled (step %d)", in.dn, len(steps)))
+						break
+					}
+				}
+				h.mu.Unlock()
 			}})
 		}
 		if len(cs) == 0 {
@@ -782,6 +794,21 @@ var vScripts = map[string][]vStep{
 		{Ev: "healthy", DN: "root.p.c"}, {Ev: "done", DN: "root.p.c"},
 		{Ev: "return", DN: "root.p", Kind: "err"}, {Ev: "died", DN: "root.p", Kind: "err"}, {Ev: "gc"},
 		{Ev: "return", DN: "root.p.c", Kind: "nil"}, {Ev: "died", DN: "root.p.c", Kind: "nil"}, {Ev: "gc"}, {Ev: "sched", DN: "root.p"},
+	},
+	// the supervisor's context is cancelled while a service that has signalled Done is still running (it releases a resource when
+	// told to stop), below set-up runnables that have signalled Done and returned: every running service is told to stop
+	"kill-with-a-completed-service-still-running": {
+		{Ev: "sched", DN: "root"}, {Ev: "rungroup", DN: "root", Names: []string{"holder", "plain"}}, {Ev: "healthy", DN: "root"}, {Ev: "done", DN: "root"},
+		{Ev: "return", DN: "root", Kind: "nil"}, {Ev: "died", DN: "root", Kind: "nil"},
+		{Ev: "sched", DN: "root.holder"}, {Ev: "sched", DN: "root.plain"}, {Ev: "healthy", DN: "root.holder"}, {Ev: "done", DN: "root.holder"},
+		{Ev: "healthy", DN: "root.plain"}, {Ev: "kill"},
+	},
+	"kill-with-services-in-every-state": {
+		{Ev: "sched", DN: "root"}, {Ev: "rungroup", DN: "root", Names: []string{"a", "b", "c", "d"}}, {Ev: "healthy", DN: "root"},
+		{Ev: "sched", DN: "root.a"}, {Ev: "sched", DN: "root.b"}, {Ev: "sched", DN: "root.c"}, {Ev: "sched", DN: "root.d"},
+		{Ev: "healthy", DN: "root.a"}, {Ev: "healthy", DN: "root.b"}, {Ev: "done", DN: "root.b"},
+		{Ev: "rungroup", DN: "root.c", Names: []string{"x"}}, {Ev: "healthy", DN: "root.c"}, {Ev: "done", DN: "root.c"}, {Ev: "sched", DN: "root.c.x"},
+		{Ev: "kill"},
 	},
 	// the same tree with a child that does NOT signal Done: p is restarted only after c has returned
 	"healthy-child-waits": {
